@@ -170,6 +170,9 @@ def encode(job):
         res["twins"][qn] = rr
         if rr == "sat":
             res["twins"][qn + "_model"] = decode(s.model())
+    xs = common.xs_run(s, qs, res["verdicts"], tuple(job[:5]), ("accepts_out_of_spec", "rejects_in_spec", "foreign_failure"))
+    if xs:
+        res["xsolver"] = xs
     res["t_solve"] = time.time() - t1
     res["stats"] = {k: (round(v, 3) if isinstance(v, float) else v) for k, v in view.stats.items()}
     res["functions"] = sorted(view.functions)
@@ -229,6 +232,7 @@ def run(tier, only=None):
     from metapype.eml import rule as R
     rep = Report(PROP, tier, "PyBMC merged symbolic execution of rule.py content validation on an abstract string (UF parser outcomes, IEEE-754 value) + z3")
     sd = common.seed()
+    common.xs_enable(tier)
     rules = [only] if only else list(R.rules_dict.keys())
     random.Random(sd).shuffle(rules)
     jobs = jobs_for(rules, sd)
@@ -255,6 +259,7 @@ def run(tier, only=None):
             rep.inconclusive.append("%s: unsupported construct: %s" % (tag, r["unsupported"]))
             continue
         rep.functions.update(r["functions"])
+        common.xs_collect(rep, tag, r)
         if r.get("mode", "merged") != "merged":
             rep.extra.setdefault("pathwise_encodings", []).append({"case": tag, "paths": r["paths"]})
         rep.solver_time += r["t_solve"] + r["stats"].get("t_check", 0)
